@@ -484,6 +484,31 @@ def _r04j(rep):
                      f"'{core.norm(core.src(st), 100)}' is typed {shown}, not {w[1]}->{w[2]} (U unit-cell atom, R atom of the untrimmed surrounding cell, S supercell atom, S0 first image in the supercell): whenever the surrounding frame holds more lattice points than |det S| (non-diagonal matrices in the classic construction) the map names wrong or non-existent unit-cell representatives", line=st.lineno)
 
 
+def _r04l(rep):
+    """Cells built from cells carry the full species labels."""
+    rep.rule("R04l", "every cell that the structure modules build from another cell (PhonopyAtoms.copy, the trimmed cell, supercell, primitive cell) receives the species as the full symbols (index-decorated labels such as Cl1 keep their index: symbols=...), not as the atomic numbers of the public getter, which drops the index (n % 1000): the images of a unit-cell atom would otherwise carry another species label than the atom they map to", 5)
+    ATOMS_ = "phonopy/structure/atoms.py"
+    n = 0
+    for rel in (ATOMS_, CELLS):
+        tree = core.parse(rel)
+        for c in ast.walk(tree):
+            if not (isinstance(c, ast.Call) and (core.src(c.func) in ("PhonopyAtoms", "super().__init__", "self._set_parameters") or core.src(c.func).endswith("PhonopyAtoms"))):
+                continue
+            kws = {k.arg: k.value for k in c.keywords if k.arg}
+            if not ({"symbols", "numbers"} & set(kws)):
+                continue
+            fn = core.enclosing_function(c)
+            qn = core.qualname_of(fn) if fn is not None else "<module>"
+            num = kws.get("numbers")
+            lossy = isinstance(num, ast.Attribute) and num.attr == "numbers" and not (isinstance(kws.get("symbols"), ast.AST) and not (isinstance(kws["symbols"], ast.Constant) and kws["symbols"].value is None))
+            deprecated = rel == ATOMS_ and qn.endswith("__init__") and isinstance(num, ast.Attribute) and core.src(num.value) == "atoms"
+            n += 1
+            rep.instance("R04l", rel, qn, core.norm(core.src(c), 90) + ("  [deprecated atoms= path: a foreign atoms object has no indexed symbols]" if deprecated else ""), not lossy or deprecated,
+                         f"the new cell receives 'numbers={core.src(num) if num is not None else ''}': the public numbers getter removes the symbol index, so Cl1 becomes Cl in the copy (masses and positions stay): the supercell / primitive atoms no longer have the species of the unit-cell atoms they map to", line=c.lineno, nontrivial=not deprecated)
+    if n < 5:
+        raise AnalysisError(f"R04l: only {n} cell constructions with species found in atoms.py / cells.py")
+
+
 def _r04k(rep):
     """The pure translations are differences inside one sublattice: reference atom and images of the same primitive atom."""
     rep.rule("R04k", "pure translations of the primitive cell: the vectors handed to the permutation search are positions of the images of ONE primitive atom (selected by s2p_map == r) minus the position of an atom of that same sublattice (the representative r itself, or one of the selected images); a reference from another sublattice gives offsets between sublattices, which are not lattice translations whenever the primitive atom order is not the supercell order (positions_to_reorder)", 1)
@@ -584,6 +609,7 @@ def run(rep: core.Report):
     _r04i(rep)
     _r04j(rep)
     _r04k(rep)
+    _r04l(rep)
     from rules import shared_bcast
 
     shared_bcast.run(rep, "R04h", sorted(core.python_files("phonopy/structure")))
@@ -593,6 +619,7 @@ def selftest():
     V = []
     b = lambda name, file, old, new, rule, expect="", **kw: V.append(dict(name=name, kind="break", file=file, old=old, new=new, rule=rule, expect=expect, **kw))
     n = lambda name, file, old, new, **kw: V.append(dict(name=name, kind="neutral", file=file, old=old, new=new, **kw))
+    b("copy() hands the atomic numbers over instead of the symbols", "phonopy/structure/atoms.py", "            magnetic_moments=self._magnetic_moments,\n            symbols=self._symbols,\n        )", "            magnetic_moments=self._magnetic_moments,\n            numbers=self.numbers,\n        )", "R04l", "copy")
     b("translations referenced to supercell atom 0's representative", CELLS, "        diff = positions - positions[self._p2s_map[0]]", "        diff = positions - positions[self._s2p_map[0]]", "R04k", "_get_atomic_permutations")
     n("translations referenced to the first selected image", CELLS, "        diff = positions - positions[self._p2s_map[0]]\n        trans = np.array(\n            diff[np.where(self._s2p_map == self._p2s_map[0])[0]],", "        images = np.where(self._s2p_map == self._p2s_map[0])[0]\n        diff = positions - positions[images[0]]\n        trans = np.array(\n            diff[images],")
     b("supercell-to-unit map from the surrounding-cell index by the supercell block length", CELLS, "            self._s2u_map = np.array(u2sur_map[sur2s_map] * N, dtype=\"int64\")", "            self._s2u_map = np.array(sur2s_map // N * N, dtype=\"int64\")", "R04j", "_create_supercell")
